@@ -39,6 +39,7 @@ type ObjSpec struct {
 	Labels      map[string]string `json:"labels,omitempty"`
 	CtlKind     string            `json:"ctlKind,omitempty"`
 	HasTemplate bool              `json:"hasTemplate,omitempty"`
+	Generation  int64             `json:"generation,omitempty"` // metadata.generation of a controller object
 }
 
 type ReqSpec struct {
@@ -143,9 +144,10 @@ func (m recMetrics) RecordError(fatal bool, _ api.Attributes) {
 // NullMetrics discards every recording.
 type NullMetrics struct{}
 
-func (NullMetrics) RecordEvaluation(metrics.Decision, api.LevelVersion, metrics.Mode, api.Attributes) {}
-func (NullMetrics) RecordExemption(api.Attributes)                                                  {}
-func (NullMetrics) RecordError(bool, api.Attributes)                                                {}
+func (NullMetrics) RecordEvaluation(metrics.Decision, api.LevelVersion, metrics.Mode, api.Attributes) {
+}
+func (NullMetrics) RecordExemption(api.Attributes)   {}
+func (NullMetrics) RecordError(bool, api.Attributes) {}
 
 type fakeNS struct {
 	w   *WorldSpec
@@ -230,26 +232,27 @@ func BuildObject(o *ObjSpec) (runtime.Object, error) {
 		if o.HasTemplate {
 			t = template(o.Pod)
 		}
+		om := metav1.ObjectMeta{Name: "ctl", Generation: o.Generation, Labels: map[string]string{"app": "x"}, ResourceVersion: "42"}
 		switch o.CtlKind {
 		case "PodTemplate":
-			return &corev1.PodTemplate{Template: t}, nil
+			return &corev1.PodTemplate{ObjectMeta: om, Template: t}, nil
 		case "ReplicationController":
 			if !o.HasTemplate {
-				return &corev1.ReplicationController{}, nil
+				return &corev1.ReplicationController{ObjectMeta: om}, nil
 			}
-			return &corev1.ReplicationController{Spec: corev1.ReplicationControllerSpec{Template: &t}}, nil
+			return &corev1.ReplicationController{ObjectMeta: om, Spec: corev1.ReplicationControllerSpec{Template: &t}}, nil
 		case "ReplicaSet":
-			return &appsv1.ReplicaSet{Spec: appsv1.ReplicaSetSpec{Template: t}}, nil
+			return &appsv1.ReplicaSet{ObjectMeta: om, Spec: appsv1.ReplicaSetSpec{Template: t}}, nil
 		case "Deployment":
-			return &appsv1.Deployment{Spec: appsv1.DeploymentSpec{Template: t}}, nil
+			return &appsv1.Deployment{ObjectMeta: om, Spec: appsv1.DeploymentSpec{Template: t}}, nil
 		case "StatefulSet":
-			return &appsv1.StatefulSet{Spec: appsv1.StatefulSetSpec{Template: t}}, nil
+			return &appsv1.StatefulSet{ObjectMeta: om, Spec: appsv1.StatefulSetSpec{Template: t}}, nil
 		case "DaemonSet":
-			return &appsv1.DaemonSet{Spec: appsv1.DaemonSetSpec{Template: t}}, nil
+			return &appsv1.DaemonSet{ObjectMeta: om, Spec: appsv1.DaemonSetSpec{Template: t}}, nil
 		case "Job":
-			return &batchv1.Job{Spec: batchv1.JobSpec{Template: t}}, nil
+			return &batchv1.Job{ObjectMeta: om, Spec: batchv1.JobSpec{Template: t}}, nil
 		case "CronJob":
-			return &batchv1.CronJob{Spec: batchv1.CronJobSpec{JobTemplate: batchv1.JobTemplateSpec{Spec: batchv1.JobSpec{Template: t}}}}, nil
+			return &batchv1.CronJob{ObjectMeta: om, Spec: batchv1.CronJobSpec{JobTemplate: batchv1.JobTemplateSpec{Spec: batchv1.JobSpec{Template: t}}}}, nil
 		}
 	}
 	panic("bad ObjSpec " + o.Kind + "/" + o.CtlKind)
